@@ -184,6 +184,7 @@ def _check_seq(acc, case, flat, rows):
     if op == "seq_view":
         back = [np.array([7], dtype=dt)] + rows[::-1]
         big = RaggedArray(np.concatenate(back), [len(r) for r in back])
+        int(big.size)          # the parent has been asked its size (memoised) before the selection is taken
         ra = big[:0:-1]
     else:
         ra = RaggedArray(flat.copy(), list(lens))
